@@ -164,6 +164,7 @@ func (r *Run) StartController() (*Controller, error) {
 	if r.Cfg.Ctl.Acme {
 		r.acmeInstall(c)
 	}
+	reconciler.SimReconcileHook = func(fullsync bool) { r.curFullItem = fullsync }
 	for _, rn := range c.mgr.runnables {
 		rn := rn
 		if strings.Contains(fmt.Sprintf("%T", rn), "svcAcmeServer") {
